@@ -55,12 +55,13 @@ structure Ext (t t' : Tabs) : Prop where
   refs : ∃ l, t'.rtab = t.rtab ++ l ∧ ∀ e ∈ l, e ∉ t.rtab
   slots : t'.slots = t.slots
   gv : t'.gv = t.gv
+  spell : t'.spell = t.spell
 
 theorem ext_grow (t : Tabs) (st : SM.St) : Ext t (t.grow st) := by
   obtain ⟨l1, h1, h2, _⟩ := addAll_spec (cellMembers st) t.ctab
   obtain ⟨l2, h3, h4, _⟩ := addAll_spec (refMembers st) t.rtab
   obtain ⟨l3, h5, h6, _⟩ := addAll_spec (globalSlots st) (addAll t.rtab (refMembers st))
-  refine ⟨⟨l1, h1, h2⟩, ⟨l2 ++ l3, ?_, ?_⟩, rfl, rfl⟩
+  refine ⟨⟨l1, h1, h2⟩, ⟨l2 ++ l3, ?_, ?_⟩, rfl, rfl, rfl⟩
   · show addAll (addAll t.rtab (refMembers st)) (globalSlots st) = _
     rw [h5, h3, List.append_assoc]
   · intro e he
@@ -264,7 +265,7 @@ theorem nsPlain_ext {t t' : Tabs} (h : Ext t t') {st : SM.St} (ha : AllocOK t st
         · simp only [hr, Bool.false_eq_true, if_false]
 
 theorem qualOf_ext {t t' : Tabs} (h : Ext t t') (q : Path) (x : String) : qualOf t' q x = qualOf t q x := by
-  unfold qualOf; rw [h.slots]
+  unfold qualOf; rw [h.slots, h.spell]
 
 theorem slotBinding_ext {t t' : Tabs} (h : Ext t t') {st : SM.St} (ha : AllocOK t st) (e : Path × String)
     (he : e ∈ t.slots) : slotBinding t' e = slotBinding t e := by
